@@ -48,6 +48,10 @@ for i in sorted(os.listdir(outdir)):
         shutil.copy(demo, demodst)
         rc1, o1 = sh(f"go test -count=1 -run '{runre}' {pkg}", dst)
         ran.append(f"patched demo: rc={rc1}")
+        if rc1 == 0:
+            # a change that breaks one build configuration only (C20): try the portable build
+            rc1, o1 = sh(f"go test -count=1 -tags purego -run '{runre}' {pkg}", dst)
+            ran.append(f"patched demo (purego): rc={rc1}")
         ok = rc0 == 0 and rcb == 0 and rct == 0 and rcp == 0 and rc1 != 0
         print(prop, i, 'KEEP' if ok else 'REJECT', ran)
         if not ok:
